@@ -470,7 +470,7 @@ impl Prop for C10 {
         }
     }
     fn nontrivial_rule(&self) -> &'static str {
-        "scenario = policy LRU/LFU/FIFO, max_size 1..4 or usize::MAX, keys whose Hash is coarser than their Eq, TTL none/20/200ms, private store (clones) or SharedCacheLayer over two inner services, 20-120 requests over 2-5 keys with seeded time gaps (incl. exactly the TTL), ok/error outcomes, optional overlapping misses and cancels, final sweep over all keys; every lookup (hit iff inner not invoked during call()) and stored value is compared with a reference cache kept as a set of states (TTL ties, LFU frequency ties and 'drop expired first' fork). Non-trivial: at least two hits and a store into a full cache. Distinct = distinct event-log digest."
+        "scenario = policy LRU/LFU/FIFO, max_size 1..4 or usize::MAX, keys whose Hash is coarser than their Eq, TTL none/20/200ms, private store (clones) or SharedCacheLayer over two inner services, 20-120 requests over 2-5 keys with seeded time gaps (incl. exactly the TTL), ok/error outcomes, optional overlapping misses and cancels, final sweep over all keys; In one run of six the wrapped service has a capacity (its readiness waits for a free slot, like tower's ConcurrencyLimit). One run in eight is a thread scenario (engine B): 2-4 shuttle threads drive clones of the real service with a no-op waker; every acquisition of a library lock, every operation on a library atomic and every verif::yield_async site is a scheduling point of the seeded thread scheduler; the clock is a paused tokio clock moved by Advance operations. every lookup (hit iff inner not invoked during call()) and stored value is compared with a reference cache kept as a set of states (TTL ties, LFU frequency ties and 'drop expired first' fork). Non-trivial: at least two hits and a store into a full cache. Distinct = distinct event-log digest."
     }
     fn real_components(&self) -> Vec<&'static str> {
         vec!["tower-resilience-cache (Cache, CacheLayer, SharedCacheLayer, CacheStore with TTL on tokio's paused clock (hook), LruStore/LfuStore (fixed hasher hook)/FifoStore)", "lru crate"]
